@@ -109,7 +109,7 @@ Notes: if rtol is None, use max rtol; if rtol < 0, use quick-n-dirty method
         res = solver(holes, x0=bounds, bounds=bounds, **kwds)
         #res,cost = res[0],res[1]
         pts.append(res.ravel().tolist())
-    pts = pts[-npts:]
+    pts = pts[len(pts)-npts:]
     # inject some randomness #XXX: what are alternatives? some sampling?
     if dist is None: return pts
     if not len(pts): return pts
